@@ -281,6 +281,49 @@ def main():
         agreeing += len(g) - len(set(i for i, _ in fails))
         for i in g:
             nontrivial.add(cases[i])
+    # the lint must fire wherever a literal can stand, not only in initialisers: for every integer type the largest
+    # value, the first one beyond it and (signed) the smallest and the one below, with the type as suffix, in every
+    # expression position.  L1142 exactly for the out-of-range ones.
+    POSITIONS = {
+        "initialiser": "fn main()\n{\n\tvar x: %(t)s = %(l)s;\n}\n",
+        "assignment": "fn main()\n{\n\tvar x: %(t)s = 0;\n\tx = %(l)s;\n}\n",
+        "return": "fn f() -> %(t)s\n{\n\treturn: %(l)s\n}\nfn main()\n{\n}\n",
+        "condition-right": "fn main()\n{\n\tvar x: %(t)s = 0;\n\tif x == %(l)s\n\t{\n\t\tx = 1;\n\t}\n}\n",
+        "condition-left": "fn main()\n{\n\tvar x: %(t)s = 0;\n\tif %(l)s == x\n\t{\n\t\tx = 1;\n\t}\n}\n",
+        "else-if-condition": "fn main()\n{\n\tvar x: %(t)s = 0;\n\tif x == 0\n\t{\n\t\tx = 1;\n\t}\n\telse if x != %(l)s\n\t{\n\t\tx = 2;\n\t}\n}\n",
+        "argument": "fn f(a: %(t)s)\n{\n}\nfn main()\n{\n\tf(%(l)s);\n}\n",
+        "operand": "fn main()\n{\n\tvar x: %(t)s = 0;\n\tvar y: %(t)s = x + %(l)s;\n}\n",
+        "array-element": "fn main()\n{\n\tvar a: [2]%(t)s = [0, %(l)s];\n}\n",
+        "member": "struct S\n{\n\tm: %(t)s,\n}\nfn main()\n{\n\tvar s = S { m: %(l)s };\n}\n",
+        "constant": "const K: %(t)s = %(l)s;\nfn main()\n{\n}\n",
+        "nested-block-return": "fn f() -> %(t)s\n{\n\tvar x: %(t)s = 0;\n\t{\n\t\tx = 1;\n\t}\n\treturn: (%(l)s)\n}\nfn main()\n{\n}\n",
+        "print-argument": "fn main()\n{\n\tprint!(%(l)s);\n}\n",
+        "cast-operand": "fn main()\n{\n\tvar x: i128 = %(l)s as i128;\n}\n",
+    }
+    pjobs = []
+    for t in TYPES:
+        lo, hi = rng_of(t)
+        for v in [hi, hi + 1] + ([lo + 1, lo - 1] if lo < 0 else []):
+            if t == "i128" and v < lo:
+                continue            # below i128: not a representable literal at all
+            litsrc = ("-%d%s" % (-v, t)) if v < 0 else "%d%s" % (v, t)
+            if t in ("i128", "u128") and (v > hi) and abs(v) >= (1 << 128):
+                continue
+            for pos, tmpl in POSITIONS.items():
+                if t == "i128" and pos == "cast-operand":
+                    continue
+                pjobs.append((t, v, pos, tmpl % dict(t=t, l=litsrc), not (lo <= v <= hi)))
+    ph = run_harness(["alpha\tcheck\tmain.pn\t" + esc(src) for (_, _, _, src, _) in pjobs])
+    for (t, v, pos, src, want), ha in zip(pjobs, ph):
+        hh, hd = kv(ha)
+        has = hh == "ok" and 1142 in codes_of(hd, "lints")
+        dist["lint-position:%s:%s" % (pos, "lint" if want else "clean")] += 1
+        if hh == "ok" and has == want:
+            agreeing += 1
+        else:
+            rep.violation("lint-position:%s:%s:%d" % (pos, t, v), {
+                "why": "the literal %d of type %s in position `%s`: L1142 expected=%s, compiler says %s" % (v, t, pos, want, ha[:160]),
+                "source": src, "harness_request": "alpha\tcheck\tmain.pn\t" + esc(src)})
     report_broken_proof(rep)
     rep.coverage.update({
         "evaluations": len(cases),
